@@ -1059,7 +1059,8 @@ impl SvgElement {
                     let y = strp(y)?;
                     let w = strp(w)?;
                     let h = strp(h)?;
-                    Some(BoundingBox::new(x, y, x + w, y + h))
+                    // (a negative size is an error in SVG: the element is not rendered)
+                    (w >= 0. && h >= 0.).then(|| BoundingBox::new(x, y, x + w, y + h))
                 } else {
                     None
                 }
@@ -1133,7 +1134,7 @@ impl SvgElement {
                     let cx = strp(cx)?;
                     let cy = strp(cy)?;
                     let r = strp(r)?;
-                    Some(BoundingBox::new(cx - r, cy - r, cx + r, cy + r))
+                    (r >= 0.).then(|| BoundingBox::new(cx - r, cy - r, cx + r, cy + r))
                 } else {
                     None
                 }
@@ -1149,7 +1150,8 @@ impl SvgElement {
                     let cy = strp(cy)?;
                     let rx = strp(rx)?;
                     let ry = strp(ry)?;
-                    Some(BoundingBox::new(cx - rx, cy - ry, cx + rx, cy + ry))
+                    (rx >= 0. && ry >= 0.)
+                        .then(|| BoundingBox::new(cx - rx, cy - ry, cx + rx, cy + ry))
                 } else {
                     None
                 }
